@@ -51,6 +51,19 @@ def _apply(m, orig):
             col = idx + 1
         lines[line - 1] = ln[:col - 1] + new + ln[col - 1 + len(old):]
         return "\n".join(lines), None
+    head = ""
+    if m.get("after"):
+        # the anchor is looked for behind a (unique) marker, e.g. the signature of the function it belongs to
+        if orig.count(m["after"]) != 1:
+            return None, "marker %r matched %d times in %s" % (m["after"], orig.count(m["after"]), m["file"])
+        cut = orig.index(m["after"])
+        head, orig = orig[:cut], orig[cut:]
+    tail = ""
+    if m.get("before"):
+        if orig.count(m["before"]) != 1:
+            return None, "marker %r matched %d times in %s" % (m["before"], orig.count(m["before"]), m["file"])
+        cut = orig.index(m["before"])
+        orig, tail = orig[:cut], orig[cut:]
     if m.get("regex"):
         hits = len(re.findall(m["find"], orig, flags=re.S))
     else:
@@ -58,7 +71,7 @@ def _apply(m, orig):
     if hits != 1:
         return None, "anchor matched %d times in %s" % (hits, m["file"])
     new = re.sub(m["find"], m["replace"], orig, count=1, flags=re.S) if m.get("regex") else orig.replace(m["find"], m["replace"], 1)
-    return new, None
+    return head + new + tail, None
 
 
 def _worker(args):
